@@ -881,7 +881,7 @@ where
 
     fn size_hint(&self) -> (usize, Option<usize>) {
         if let Some(symbol) = self.symbol {
-            let len = slack::<usize, _>(symbol, self.model.quantizer.max_symbol_inclusive)
+            let len = slack::<usize, _>(self.model.quantizer.max_symbol_inclusive, symbol)
                 .saturating_add(1);
             (len, None)
         } else {
